@@ -35,6 +35,19 @@ pub fn line(s: &str) {
     }
 }
 
+/// raw write of pre-formatted bytes (usable from inside an interposed system call)
+pub fn raw(b: &[u8]) {
+    let fd = OUT_FD.load(Ordering::SeqCst);
+    let mut off = 0;
+    while off < b.len() {
+        let n = unsafe { libc::write(fd, b[off..].as_ptr() as *const _, b.len() - off) };
+        if n <= 0 {
+            break;
+        }
+        off += n as usize;
+    }
+}
+
 pub fn esc(s: &str) -> String {
     let mut o = String::with_capacity(s.len() + 2);
     o.push('"');
